@@ -5,10 +5,50 @@
    observation of the engine-side / internal arrays of that step; what is modelled is which command returns which component,
    which commands leave everything alone, which ones change flags (getgradients / set collect_gradient), and which ones make
    the numbers unknown until the next step.   T is the type of a number (never operated on).   Definitions only. *)
-From Coq Require Import ZArith List Bool String.
+From Coq Require Import ZArith List Bool String Ascii Arith.
 From CV Require Import C20.ScriptModel.
 Import ListNotations.
 Local Open Scope string_scope.
+
+(* the argument of `cvcflags`: `while (is >> flag) flags.push_back(flag != 0)` with int flag.  Tokens of 1..9 digits with an optional
+   sign, separated by white space; anything else (and a number that does not fit) ends the list *)
+Definition is_digit (c : ascii) : bool := let n := nat_of_ascii c in (48 <=? n)%nat && (n <=? 57)%nat.
+Definition is_space (c : ascii) : bool := let n := nat_of_ascii c in (n =? 32)%nat || ((9 <=? n)%nat && (n <=? 13)%nat).
+Definition is_sign (c : ascii) : bool := let n := nat_of_ascii c in (n =? 43)%nat || (n =? 45)%nat.
+Definition tok_ok (nd : nat) : bool := (0 <? nd)%nat && (nd <=? 9)%nat.
+Fixpoint pflags (s : string) (tok : option (bool * nat)) : list bool :=
+  match s with
+  | EmptyString => match tok with Some (nz, nd) => if tok_ok nd then [nz] else [] | None => [] end
+  | String c r =>
+      if is_digit c then
+        match tok with
+        | Some (nz, nd) => pflags r (Some (nz || negb (nat_of_ascii c =? 48)%nat, S nd))
+        | None => pflags r (Some (negb (nat_of_ascii c =? 48)%nat, 1%nat))
+        end
+      else if is_space c then
+        match tok with
+        | Some (nz, nd) => if tok_ok nd then nz :: pflags r None else []
+        | None => pflags r None
+        end
+      else if is_sign c then
+        match tok with
+        | None => pflags r (Some (false, 0%nat))
+        | Some (nz, nd) => if tok_ok nd then [nz] else []
+        end
+      else match tok with Some (nz, nd) => if tok_ok nd then [nz] else [] | None => [] end
+  end.
+Definition parse_flags (s : string) : list bool := pflags s None.
+
+(* colvar::update_cvc_flags at the next calc(): pending flags replace the current ones; if none is set the components are all
+   switched off, the update fails and the flags stay pending *)
+Definition apply_pending (cur : list bool) (p : option (list bool)) : list bool * option (list bool) :=
+  match p with
+  | None => (cur, None)
+  | Some f => if existsb (fun b => b) f then (f, None) else (f, Some f)
+  end.
+(* colvar::set_cvc_flags: refused unless there is one flag per component; otherwise it replaces whatever was pending *)
+Definition set_pending (cur : list bool) (p : option (list bool)) (f : list bool) : option (list bool) * bool :=
+  if (List.length f =? List.length cur)%nat then (Some f, true) else (p, false).
 
 Section Sem.
   Context {T : Type}.
@@ -18,11 +58,15 @@ Section Sem.
     cd_value : T; cd_af : T; cd_tf : T;
     cd_active : bool;             (* the variable was computed at that step (feature "active") *)
     cd_atoms : list Z;            (* sorted ids of the atoms of all groups (colvar::get_atom_lists) *)
-    cd_grads : list vec }.        (* colvar::atomic_gradients as collected at that step *)
+    cd_grads : list vec;          (* colvar::atomic_gradients as collected at that step *)
+    cd_cvcs : list bool;          (* which components are enabled *)
+    cd_contrib : list T }.        (* sup_coeff * value of every component *)
   Record cvsem := mk_cvsem {
     cs_data : option cvdata;      (* None: not known (new variable, or a state-changing body ran since the last step) *)
     cs_collect : bool;            (* feature collect_gradient enabled *)
-    cs_valid : option bool }.     (* gradients collected since the feature was enabled (None: not known, e.g. after a failed step or `update`) *)
+    cs_valid : option bool;       (* gradients collected since the feature was enabled (None: not known, e.g. after a failed step or `update`) *)
+    cs_cvcs : option (list bool); (* enabled flags of the components (None: not known) *)
+    cs_pending : option (list bool) }.   (* colvar::cvc_flags: flags waiting for the next calc() *)
   Record moddata := mk_moddata {
     md_step : Z; md_energy : T;
     md_ids : list Z; md_masses : list T; md_charges : list T;
@@ -49,7 +93,7 @@ Section Sem.
   Fixpoint aset {A} (n : string) (a : A) (l : list (string * A)) : list (string * A) :=
     match l with [] => [] | (m, b) :: r => if String.eqb m n then (m, a) :: r else (m, b) :: aset n a r end.
 
-  Definition fresh_cv : cvsem := mk_cvsem None false (Some false).
+  Definition fresh_cv : cvsem := mk_cvsem None false (Some false) None None.
 
   (* are gradients available after a step?  requested + (already there, or the step ran through and the variable is active) *)
   Definition step_valid (ok : bool) (c : cvsem) (d : option cvdata) : option bool :=
@@ -73,14 +117,29 @@ Section Sem.
 
   (* a body that may change numbers ran: nothing is known until the next step (flags stay) *)
   Definition invalidate (st : sem) : sem :=
-    mk_sem (sm_objs st) (map (fun p => (fst p, mk_cvsem None (cs_collect (snd p)) (cs_valid (snd p)))) (sm_cv st))
+    mk_sem (sm_objs st) (map (fun p => (fst p, mk_cvsem None (cs_collect (snd p)) (cs_valid (snd p)) (cs_cvcs (snd p)) (cs_pending (snd p)))) (sm_cv st))
            (map (fun p => (fst p, None)) (sm_bias st)) None.
+
+  (* component flags after a step: pending flags are applied by the calc() of an active variable; a variable whose flags are not
+     known takes the observed ones; after a step that failed nothing is known *)
+  Definition step_cvcs (ok : bool) (c : cvsem) (d : option cvdata) : option (list bool) * option (list bool) :=
+    match d with
+    | None => (cs_cvcs c, cs_pending c)
+    | Some x =>
+        if negb ok then (None, None)
+        else if negb (cd_active x) then (cs_cvcs c, cs_pending c)
+        else match cs_cvcs c with
+             | None => (Some (cd_cvcs x), None)
+             | Some cur => let (a, p) := apply_pending cur (cs_pending c) in (Some a, p)
+             end
+    end.
 
   (* one step: the numbers are replaced by the observation of that step; gradients are collected where requested *)
   Definition sem_step (st : sem) (ob : obs) : sem :=
     mk_sem (sm_objs st)
       (map (fun p => let d := alookup (fst p) (ob_cv ob) in
-                     (fst p, mk_cvsem d (cs_collect (snd p)) (step_valid (ob_ok ob) (snd p) d)))
+                     (fst p, mk_cvsem d (cs_collect (snd p)) (step_valid (ob_ok ob) (snd p) d)
+                                      (fst (step_cvcs (ob_ok ob) (snd p) d)) (snd (step_cvcs (ob_ok ob) (snd p) d))))
            (sm_cv st))
       (map (fun p => (fst p, alookup (fst p) (ob_bias ob))) (sm_bias st))
       (Some (ob_mod ob)).
@@ -132,7 +191,13 @@ Section Sem.
 
   Definition set_flags (st : sem) (n : string) (c : bool) (v : option bool) : sem :=
     match alookup n (sm_cv st) with
-    | Some cs => mk_sem (sm_objs st) (aset n (mk_cvsem (cs_data cs) c v) (sm_cv st)) (sm_bias st) (sm_mod st)
+    | Some cs => mk_sem (sm_objs st) (aset n (mk_cvsem (cs_data cs) c v (cs_cvcs cs) (cs_pending cs)) (sm_cv st)) (sm_bias st) (sm_mod st)
+    | None => st
+    end.
+
+  Definition set_cvcs (st : sem) (n : string) (a p : option (list bool)) : sem :=
+    match alookup n (sm_cv st) with
+    | Some cs => mk_sem (sm_objs st) (aset n (mk_cvsem (cs_data cs) (cs_collect cs) (cs_valid cs) a p) (sm_cv st)) (sm_bias st) (sm_mod st)
     | None => st
     end.
 
@@ -165,15 +230,26 @@ Section Sem.
         | Some cs, Some false => (set_flags st obj false (Some false), QOk)
         | _, _ => (st, QErr)
         end
+      else if String.eqb fn "colvar_cvcflags" then
+        (* the flags are only stored: nothing changes before the next calc() of the variable; the last accepted command wins *)
+        match alookup obj (sm_cv st) with
+        | None => (st, QOk)
+        | Some cs =>
+          match cs_cvcs cs with
+          | Some cur => let (p, ok) := set_pending cur (cs_pending cs) (parse_flags (nth 4 words "")) in
+                        (set_cvcs st obj (Some cur) p, if ok then QInt 0 else QErr)
+          | None => (set_cvcs st obj None None, QOk)
+          end
+        end
       else if String.eqb fn "colvar_update" then
         (* recomputes this variable (gradients are collected again if requested): numbers and availability unknown *)
         (match alookup obj (sm_cv st) with
-         | Some cs => set_flags (invalidate st) obj (cs_collect cs) (if cs_collect cs then None else Some false)
+         | Some cs => set_cvcs (set_flags (invalidate st) obj (cs_collect cs) (if cs_collect cs then None else Some false)) obj None None
          | None => invalidate st
          end, QOk)
       else if String.eqb fn "cv_update" then
         (let st' := invalidate st in
-         mk_sem (sm_objs st') (map (fun p => (fst p, mk_cvsem None (cs_collect (snd p)) (if cs_collect (snd p) then None else Some false))) (sm_cv st'))
+         mk_sem (sm_objs st') (map (fun p => (fst p, mk_cvsem None (cs_collect (snd p)) (if cs_collect (snd p) then None else Some false) None None)) (sm_cv st'))
                 (sm_bias st') (sm_mod st'), QOk)
       else (invalidate st, QOk)       (* any other body: may change numbers; its own answer is not modelled *)
     end.
@@ -204,6 +280,13 @@ Section Sem.
       end.
     Definition run_sevents (st : sem) (evs : list sevent) : sem := fold_left do_sevent evs st.
   End ExecSem.
+
+  (* colvar::calc_cvc_values for a linear combination: the contributions of the enabled components, in order *)
+  Fixpoint combine (add : T -> T -> T) (acc : T) (contrib : list T) (flags : list bool) : T :=
+    match contrib, flags with
+    | c :: cr, f :: fr => combine add (if f then add acc c else acc) cr fr
+    | _, _ => acc
+    end.
 
   (* the data are about the objects that exist, in the same order *)
   Definition sem_wf (st : sem) : Prop :=
